@@ -37,6 +37,9 @@ def check_cvc5(solver, timeout_ms):
         txt = solver.to_smt2()
         if "(lambda" in txt or "(_ as-array" in txt:
             return "unknown", 0.0
+        # z3 prints an empty conjunction / disjunction as the bare symbol `and` / `or`
+        txt = re.sub(r"(?<![(\w!.|-])and(?![\w!.|-])", "true", txt)
+        txt = re.sub(r"(?<![(\w!.|-])or(?![\w!.|-])", "false", txt)
         txt = "(set-logic ALL)\n" + txt
         t0 = time.time()
         slv = cvc5.Solver()
@@ -155,11 +158,15 @@ def prove_one(hyps, goal, quick, retry=False):
                 s0 = z3.Solver(); s0.set("timeout", 15000); s0.set("rlimit", 3 * M); s0.set("smt.mbqi", False)
                 s0.add(*sub); s0.add(z3.Not(goal))
                 if s0.check() == z3.unsat: return "proved", "z3", None, s0
-    for mbqi, rlimit, tmo in budgets:
+    for k, (mbqi, rlimit, tmo) in enumerate(budgets):
         s = z3.Solver(); s.set("timeout", tmo); s.set("rlimit", rlimit); s.set("smt.mbqi", mbqi)
         s.add(*hyps); s.add(z3.Not(goal))
         r = s.check(); last = s
         if r == z3.unsat: return "proved", "z3", None, s
+        if k == 0 and r != z3.sat:
+            # second back end early: cvc5 often decides in milliseconds what z3's E-matching does not find
+            r2, _ = check_cvc5(s, 8000 if quick and not retry else 30000)
+            if r2 == "unsat": return "proved", "cvc5", None, s
         if r == z3.sat and mbqi:      # models found without MBQI may ignore quantifiers
             big = s.model()
             # prefer a small counter-model (replayable on the real code) when there is one
@@ -297,19 +304,27 @@ def discharge(ob, quick=True, retry=False):
     for ci, g in enumerate(conjuncts(ob["goal"])):
         hk = hints.get(str(ci))
         if hk is not None and not mk:
-            s = try_hint(ob["hyps"], g, hk)
-            if s is not None:
-                backends.add("z3(hint)"); continue
+            if isinstance(hk, dict) and hk.get("cvc5"):
+                # recorded: z3 does not find this proof, cvc5 does -- ask cvc5 first (same hypotheses, same goal)
+                s0 = z3.Solver(); s0.add(*ob["hyps"]); s0.add(z3.Not(g))
+                r2, _ = check_cvc5(s0, 120000)
+                if r2 == "unsat":
+                    backends.add("cvc5(hint)"); continue
+            else:
+                s = try_hint(ob["hyps"], g, hk)
+                if s is not None:
+                    backends.add("z3(hint)"); continue
         t_c = time.time()
         st, be, model, s = prove_one(ob["hyps"], g, quick, retry)
         t_c = time.time() - t_c
         if mk and st == "proved" and (t_c > float(mk) or retry):
             hk2 = minimise(ob["hyps"], g, t_c)
             if hk2 is not None: ob.setdefault("hint_out", {})[str(ci)] = hk2
+            elif be == "cvc5": ob.setdefault("hint_out", {})[str(ci)] = {"cvc5": 1}
         elif st == "undecided" and (retry or mk or not quick):
             # last resort: search for a subset of the quantified hypotheses from which the goal follows quickly (the full
             # set can drown the instantiation heuristics); a proof from a subset is a proof
-            hk2 = minimise(ob["hyps"], g, 4.0, deadline_s=(300 if mk else 150))
+            hk2 = minimise(ob["hyps"], g, 4.0, deadline_s=(300 if mk else 60))
             if hk2 is not None:
                 st, be = "proved", "z3(subset-search)"
                 if mk: ob.setdefault("hint_out", {})[str(ci)] = hk2
